@@ -78,9 +78,9 @@ def check(prop, tier, replay=None):
             if r['kind'] in ('format', 'extlabel') and r['changed']:
                 violations.append(dict(sig=dict(which='cosmetic-edit-changes-hash', kind=r['kind']), replay=dict(property=prop, edit=r),
                                        text='%s edit (%s) changes the configuration hash' % (r['kind'], r['what'])))
-            if not r.get('childEqual', True) or not r.get('apiEqual', True):
+            if not r.get('childEqual', True) or not r.get('apiEqual', True) or not r.get('fileEqual', True):
                 violations.append(dict(sig=dict(which='hash-differs-between-processes'), replay=dict(property=prop, edit=r),
-                                       text='hash of the same content differs in another process / over the sidecar API (%s %s)' % (r['path'], r['what'])))
+                                       text='hash of the same content differs in another process / over the sidecar API / between loading from a file and from pushed content (%s %s)' % (r['path'], r['what'])))
         for r in sync:
             if r['treatedInSync'] and not r['shardRunsCoordinatorConfig']:
                 violations.append(dict(sig=dict(which='in-sync-with-other-configuration', group=group(r['class'])), replay=dict(property=prop, protocol=r),
